@@ -285,7 +285,8 @@ def gen_pep(rng):
              release=tuple(rng.choice(nums) for _ in range(rng.choice([1, 2, 3, 3]))),
              pre=rng.choice([None, None] + [(l, rng.choice(nums)) for l in ("a", "b", "rc")]),
              post=rng.choice([None, None] + nums), dev=rng.choice([None, None] + nums),
-             local=rng.choice([None, None, (1,), ("a",), ("ubuntu", 1), (0, "x", 10), ("abc", "def", 7, 0), (2 ** 32 - 1,), ("a1", "1a")]))
+             local=rng.choice([None, None, (1,), ("a",), ("ubuntu", 1), (0, "x", 10), ("abc", "def", 7, 0), (2 ** 32 - 1,), ("a1", "1a"),
+                               ("0a1b2c3",), ("00a", 0), ("0x1f", 7), ("g0a1b2c3d",), ("0", "00a0")]))
     return P.spell(v, rng, max_rel=3) if rng.random() < 0.7 else P.normal(v)
 
 
